@@ -192,7 +192,8 @@ def _perm_worker(args):
                     jid = f"{key}|{ino}|{mode}|{which}"
                     jobs.append((jid, u.gid, entry, s_ * 7919 + ino, mode, src))
                     jmeta[jid] = (base, u2, entry, toks)
-    results, incidents = arena.run(jobs)
+    # (a parser that dies or spins is C03's business; here both parsers only have to behave alike: small budget, no repeats)
+    results, incidents = arena.run(jobs, budget_ms=4000, retry=False)
     seen = set()
     for jid, ra in results.items():
         if not jid.endswith("|a"):
@@ -210,8 +211,14 @@ def _perm_worker(args):
             seen.add(base.gid)
             out["viol"].append({"sig": "parser-behaviour-differs", "what": "the parsers generated from a grammar and from the same grammar with permuted declarations behave differently",
                                 "witness": {"grammar": base.text, "permuted": u2.text, "entry": entry, "tokens": toks[:60], "a": str(fa)[:400], "b": str(fb)[:400]}})
+    by_gid = {u.gid: u for u in units}
     for inc in incidents:
         out["counts"]["arena_incidents"] += 1
+        out["counts"]["arena_incident_" + inc["kind"]] += 1
+        if len(out["inconclusive"]) < 2:
+            j = inc["job"]
+            u = by_gid.get(j[1])
+            out["inconclusive"].append({"kind": inc["kind"], "rc": inc.get("rc"), "grammar": u.text if u else None, "entry": j[2], "source": j[5][:200], "modes": j[4]})
     rmtree(arena.dir)
     rmtree(wd)
     out["counts"] = dict(out["counts"])
